@@ -202,7 +202,7 @@ ImplStatus(k, c, ct) ==
          ELSE 422                                                         \* statusFor
 
 ImplCT(k, c) ==
-  CASE c = "none"    -> IF hdr.m = "HEAD" THEN "absent" ELSE "sniffed"    \* D1
+  CASE c = "none"    -> "sniffed"                                         \* D1 (sniffed for HEAD too)
     [] c = "options" -> "absent"
     [] c = "ws"      -> "unmodelled"
     [] k = "SSE"     -> IF c = "undec" THEN "json" ELSE "sse"
@@ -230,10 +230,12 @@ AnyRule == Rule(0, 999, "any")
 Rules ==
   CASE cls \in {"options", "ws"} -> {AnyRule}
     [] cls = "none" ->
-         \* not stated: which 4xx.  Stated: the body is a GraphQL response
-         \* with the content type the Accept header admits.  HEAD has no body.
+         \* not stated: which 4xx, and - no transport, hence no configured
+         \* headers and no negotiating code - which of the two GraphQL media
+         \* types.  Stated: the body is a GraphQL response and is labelled as
+         \* one.  HEAD has no body.
          IF hdr.m = "HEAD" THEN {AnyRule}
-         ELSE {Rule(400, 499, c) : c \in Acceptable(hdr.acc)}
+         ELSE {Rule(400, 499, c) : c \in JsonTypes}
     [] Kind \in Streaming ->
          \* text/event-stream and multipart/mixed answers are outside the
          \* statement, except: execution started => 200
